@@ -86,7 +86,16 @@ def run_case(case, tid):
     for i, a in enumerate(strs):
         buf.write(f"p{i + 1},{a},BATCH_PIPELINE,op1,,1,const,,1\n")
     buf.seek(0)
-    wl = CSVWorkloadReader(buf).get_workload(tps)
+    reader = CSVWorkloadReader(buf)
+    wl = reader.get_workload(tps)
+    usage = (tid * 2654435761) % 10          # legal but less common ways of using the reader and its result (deterministic per case)
+    if usage in (1, 2):
+        # one reader object used for a second replay of the rewound file (e.g. a loop comparing schedulers on one trace):
+        # the first replay is consumed a little, the second one must start from the beginning
+        for _ in range(3):
+            wl.run_one_tick()
+        buf.seek(0)
+        wl = reader.get_workload(tps)
     start = case["t0"]
     if start:
         wl.current_tick = start            # public cursor attribute: skip an empty prefix of the run
@@ -94,6 +103,7 @@ def run_case(case, tid):
     deliv = [-1] * len(strs)
     count = [0] * len(strs)
     pos = [0] * len(strs)
+    backlog = []
     for t in range(start, end):
         ps = wl.run_one_tick()
         for j, p in enumerate(ps):
@@ -102,6 +112,13 @@ def run_case(case, tid):
             if deliv[i] < 0:
                 deliv[i] = t
                 pos[i] = j
+        if usage in (3, 4, 5):
+            # a consumer that keeps working on the list it was handed (a scheduler doing `pipelines += backlog`): the list is the caller's
+            fresh = list(ps)
+            if len(ps) <= len(strs):          # (a list that keeps coming back with what was put into it is already a finding: stop feeding it)
+                ps += backlog
+            backlog.extend(fresh[:len(strs)])
+            del backlog[4 * len(strs) + 4:]
     rows, sig = [], []
     for i, a in enumerate(strs):
         d = Decimal(a)
